@@ -121,6 +121,89 @@ func c04IsPipeline(c *database.Command) bool {
 		strings.Contains(c.Command, ">>") || strings.Contains(strings.ToLower(c.Command), "pipe")
 }
 
+// c04LongLived: one Database object serving many searches in a row (a long-running process) and a CachedDatabase whose
+// command list is replaced by one of the same length.  Anything the engine remembers between searches - a verdict memo with
+// a generation counter, per-command flags computed once - must not let through what the CURRENT request excludes:
+//   (1) an entry is admitted under --all-platforms, then g searches for other words follow (g around every power of two up
+//       to 2^16: a counter of any narrow width wraps somewhere there), then the entry's own word is searched under a platform
+//       request that excludes it;
+//   (2) a pipeline-only search, UpdateDatabase with the same commands in reverse order, the same pipeline-only search.
+var c04LongLivedRuns int
+
+func c04LongLived(mon *Mon, cur *SearchRecord, host string) {
+	defer func() { recover() }()
+	c04LongLivedRuns++
+	if c04LongLivedRuns > 8 { // a handful of databases per process is enough; the 2^16 gaps only on the first
+		return
+	}
+	cmds := c03Clone(cur.DB.Commands)
+	if len(cmds) == 0 {
+		return
+	}
+	// (1)
+	foreign := "plan9"
+	if host == "plan9" {
+		foreign = "windows"
+	}
+	x := database.Command{Command: "qqxuniq run", Description: "an entry of another system", Platform: []string{foreign}}
+	other := database.Command{Command: "zzyother run", Description: "an entry every system has"}
+	list := append(append([]database.Command{}, cmds...), x, other)
+	database.VerifPopulateCache(list)
+	d := &database.Database{Commands: list}
+	strict := database.SearchOptions{Limit: 5}
+	open := database.SearchOptions{Limit: 5, AllPlatforms: true}
+	gaps := []int{0, 1, 127, 128, 255, 256, 511}
+	if c04LongLivedRuns == 1 {
+		gaps = append(gaps, 65535, 65536)
+	}
+	for _, gap := range gaps {
+		d.SearchUniversal("qqxuniq", open)
+		for i := 0; i < gap; i++ {
+			d.SearchUniversal("zzyother", strict)
+		}
+		for i, r := range d.SearchUniversal("qqxuniq", strict) {
+			if ok, _ := c04Allowed(r.Command, host, strict); !ok {
+				rec := &SearchRecord{DB: d, Query: "qqxuniq", Opts: strict}
+				det := c04Detail(rec, i, r.Command)
+				det["path"] = "long-lived database: admitted under --all-platforms, then " + Itoa(gap) + " other searches, then searched under the host platform"
+				mon.Hit("C04", "platform-filter-violated", det)
+				return
+			}
+		}
+	}
+	mon.Tag("c04-long-lived-database")
+	// (2)
+	cdb := database.NewCachedDatabase(&database.Database{Commands: c03Clone(cmds)})
+	po := cur.Opts
+	po.PipelineOnly, po.AllPlatforms, po.Limit = true, true, len(cmds)+5
+	qs := []string{cur.Query}
+	for i := range cmds {
+		if w := strings.Fields(cmds[i].Command); len(w) > 0 && len(qs) < 6 {
+			qs = append(qs, w[0])
+		}
+	}
+	for _, q := range qs {
+		cdb.SearchWithOptionsAndCache(q, po)
+	}
+	rev := c03Clone(cmds)
+	for i, j := 0, len(rev)-1; i < j; i, j = i+1, j-1 {
+		rev[i], rev[j] = rev[j], rev[i]
+	}
+	cdb.UpdateDatabase(rev)
+	for _, q := range qs {
+		for i, r := range cdb.SearchWithOptionsAndCache(q, po) {
+			if !c04IsPipeline(r.Command) {
+				rec := &SearchRecord{DB: cdb.Database, Query: q, Opts: po}
+				det := c04Detail(rec, i, r.Command)
+				det["path"] = "pipeline-only search after UpdateDatabase replaced the commands by the same list in reverse order"
+				mon.Hit("C04", "pipeline-filter-violated", det)
+				return
+			}
+		}
+	}
+	mon.Tag("c04-same-size-update")
+}
+
 // offAnswer: the answer of the same request with the typo fallback switched off (path classification).
 func offAnswer(rec *SearchRecord) (rs []database.SearchResult, panicked bool) {
 	defer func() {
@@ -156,6 +239,9 @@ func init() {
 			if cur.Opts.PipelineOnly && !c04IsPipeline(r.Command) {
 				mon.Hit("C04", "pipeline-filter-violated", c04Detail(cur, i, r.Command))
 			}
+		}
+		if len(prev) == 0 {
+			c04LongLived(mon, cur, host)
 		}
 		// the exported gate the CLI applies to last-resort recovery answers, on the whole command list in database order
 		// (runs of adjacent entries that must be rejected included): what it keeps is exactly what the predicate admits
